@@ -43,6 +43,8 @@ Proof. repeat constructor. Qed.
 (* knot vector (0,0,0,1/2,1/2,1,1,1)*2, p = 2, nqp = 3: supports in Gauss-node units *)
 Example ex_meshsupp : meshsupp 3 2 [0;0;0;1;1;2;2;2]%Z = [(0,3);(0,3);(0,6);(3,6);(3,6)].
 Proof. vm_compute. reflexivity. Qed.
+Example ex_nqp_spaces : nqp_spaces [1;1] [1;3] = 4 /\ nqp_spaces [3;1] [1;2] = 4 /\ nqp_spaces [2] [2] = 3.
+Proof. vm_compute. auto. Qed.
 Example ex_nqp : nqp [2;3;1] = 4.
 Proof. vm_compute. reflexivity. Qed.
 
